@@ -587,6 +587,23 @@ func sliceParamRoots(h *ssa.Function, v ssa.Value, seen map[ssa.Value]bool, d in
 		if b, ok := x.Call.Value.(*ssa.Builtin); ok && b.Name() == "append" {
 			return sliceParamRoots(h, x.Call.Args[0], seen, d+1)
 		}
+		// the function calling itself with the slice it is growing (an accumulator threaded through a recursion):
+		// what comes back is grown from what went in
+		if sx.Callee(x) == h {
+			for _, a := range x.Call.Args {
+				if _, isSlice := types.Unalias(a.Type()).Underlying().(*types.Slice); !isSlice {
+					continue
+				}
+				r, ok := sliceParamRoots(h, a, seen, d+1)
+				if !ok {
+					return nil, false
+				}
+				for k := range r {
+					out[k] = true
+				}
+			}
+			return out, true
+		}
 	}
 	return nil, false
 }
